@@ -79,6 +79,10 @@ def main() -> int:
                 unlisted.append(finding)
 
         extra = {}
+        if ctx.prog.source.renames:
+            extra["renamed_private_members"] = ctx.prog.source.renames[:50]
+            for note in ctx.prog.source.renames[:20]:
+                print(f"note: {note}")
         selftest_problem = None
         if args.tier == "thorough":
             from sa import selftest
